@@ -86,11 +86,13 @@ class Mirror:
 
 
 def gen_case(rng, maxops, style=None):
-    style = style or rng.choice(['life', 'life', 'bin', 'bin', 'chunks', 'text', 'mixed', 'closed', 'big'])
+    style = style or rng.choice(['life', 'life', 'bin', 'bin', 'chunks', 'chunks', 'records', 'text', 'mixed', 'closed', 'big'])
     if style == 'chunks':
         return gen_chunks(rng)
     if style == 'full':
         return gen_full(rng)
+    if style == 'records':
+        return gen_records(rng)
     m = Mirror()
     ops = []
     nops = rng.randrange(3, maxops)
@@ -225,6 +227,32 @@ def gen_chunks(rng):
     ops += ['e%d' % i, 'r%d,1' % i, 'e%d' % i, 't%d' % i]
     ops.append(rng.choice(['c%d' % i, 'd%d' % i if i < 2 and not (inw and back != 'with') else 'c%d' % i]))
     return 'chunks|' + ' '.join(ops)
+
+
+def gen_records(rng):
+    """the text round trip of the property: records printed with print_to are scanned back with
+    scan_from after reopening or seeking back"""
+    i = rng.randrange(4)
+    p = rng.randrange(3)
+    wm = rng.choice(['w', 'w+', 'wb+', 'a', 'a+'])
+    ops = ['O%d,%d,%s' % (i, p, wm) if i < 2 else 'o%d,%d,%s' % (i, p, wm)]
+    n = rng.choice([0, 1, 2, 3, 5, 9, 30])
+    recs = []
+    for _ in range(n):
+        k = rng.choice([0, 1, -1, 7, 42, -300, 2 ** 31, -2 ** 63, 2 ** 63 - 1, rng.randrange(-10 ** 9, 10 ** 9)])
+        w = rng.choice(WORDS)
+        recs.append((k, w)); ops.append('p%d,%d,%s' % (i, k, w))
+        if rng.random() < .1: ops.append('t%d' % i)
+    if '+' in wm and rng.random() < .5:
+        ops.append(rng.choice(['s%d,0,0' % i, 'f%d s%d,0,0' % (i, i)]))
+    else:
+        if rng.random() < .5: ops.append('c%d' % i)
+        ops.append('o%d,%d,%s' % (i, p, rng.choice(['r', 'r+', 'a+', 'rb'])))
+    for _ in range(n):
+        ops.append('q%d' % i)
+        if rng.random() < .15: ops.append(rng.choice(['t%d' % i, 'e%d' % i]))
+    ops += ['e%d' % i, 'q%d' % i, 'e%d' % i, 't%d' % i, 'c%d' % i]
+    return 'records|' + ' '.join(ops)
 
 
 def gen_full(rng):
@@ -458,7 +486,8 @@ def run(ctx):
         'sclose, del, with{...} nesting, sread/swrite with sizes 0..5*BUFSIZ (BUFSIZ-1, BUFSIZ, BUFSIZ+1 included; data with zero bytes and '
         'all-zero data), sseek with every origin (inside, at, beyond the end, negative, invalid origin), stell, seof, sflush, '
         'print_to/scan_from of "%ld %s\\n" records; styles: life-cycle heavy, operations on closed Files, binary, text, mixed, big chunks, '
-        'write-in-one-chunking/read-in-another after reopen|seek|with|del, failing fclose. After EVERY operation the harness prints ftell/feof '
+        'write-in-one-chunking/read-in-another after reopen|seek|with|del, records printed then scanned back after reopen|seek, failing fclose; '
+        'plus EVERY history up to length 3 (thorough: 4) over a 20-operation alphabet. After EVERY operation the harness prints ftell/feof '
         'of each open FILE* and the fopen/fclose events seen by the link-time wrappers. A case is non-trivial when it exercised at least two '
         'of the boundary predicates listed in coverage.features and at least one of {operation on a closed File raised IOError, bytes read '
         'back, record scanned back}; distinct = distinct implementation transcripts')
